@@ -1,6 +1,6 @@
 (* EvoMutTotal.v — Uniform mutation finds the node it drew: on a space without custom decision points it returns a
    child whenever the DNA has a mutable node (and raises 'Immutable DNA' otherwise). *)
-From PG Require Import Common.Tactics Model.Geno Model.Evo Proofs.GenoBasics Proofs.GenoValid Proofs.GenoExact Proofs.EvoBase Proofs.EvoMut.
+From PG Require Import Common.Tactics Model.Geno Model.Evo Proofs.GenoBasics Proofs.GenoValid Proofs.GenoExact Proofs.GenoRandom Proofs.EvoBase Proofs.EvoMut.
 
 Definition b2n (b : bool) : nat := if b then 1 else 0.
 
@@ -75,6 +75,44 @@ End Count.
 Lemma Forall2_combine_in : forall A B (P : A -> B -> Prop) l m a b, Forall2 P l m -> In (a, b) (combine l m) -> P a b.
 Proof. intros A B P l m a b H. induction H; simpl; intros Hin. contradiction. destruct Hin as [Hin|Hin]; [inv Hin|]; auto. Qed.
 
+(* random generation never reaches a custom decision point in a space that has none *)
+Section NoCustom.
+  Variable R : Type.
+  Variable sample : nat -> nat -> R -> list nat * R.
+  Variable randint : nat -> R -> nat * R.
+  Variable uniform : flt -> flt -> R -> flt * R.
+  Lemma existsb_false_Forall2 : forall A X (f : X -> bool) (l : list A) (m : list X),
+    Forall2 (fun _ x => f x = false) l m -> existsb f m = false.
+  Proof. induction 1; simpl; auto. rewrite H, IHForall2. auto. Qed.
+  Lemma nocust_both :
+    (forall s, nocustom s = true -> forall r, scust (fst (random_dna R sample randint uniform s r)) = false) /\
+    (forall p, nocustom_p p = true -> forall r, pcust (fst (random_p R sample randint uniform p r)) = false).
+  Proof.
+    apply dspec_dpoint_ind.
+    - intros es IH Hn r. rewrite random_dna_space.
+      pose proof (map_st_Forall2 _ _ _ (fun e r0 => random_p R sample randint uniform e r0) (fun _ x => pcust x = false) es) as HF.
+      assert (Hf : Forall (fun e => forall r0, pcust (fst (random_p R sample randint uniform e r0)) = false) es).
+      { simpl in Hn. rewrite forallb_forall in Hn. rewrite Forall_forall in *. intros e He r0. apply IH; auto. }
+      specialize (HF Hf r). destruct (map_st _ es r) as [ds r']. simpl in *. eapply existsb_false_Forall2; eauto.
+    - intros k cands dist srt nm lits IH Hn r. rewrite random_p_choices. cbv zeta.
+      destruct (if dist then sample (length cands) k r else map_st (fun _ r0 => randint (length cands) r0) (seq 0 k) r) as [ch r1].
+      set (g := fun c r0 => let (sub, r') := with_nth (fun s => random_dna R sample randint uniform s) (fun r' => (SSpace [], r')) cands c r0 in ((c, sub), r')).
+      pose proof (map_st_Forall2 _ _ _ g (fun (_ : nat) (x : nat * sdna) => scust (snd x) = false) (if srt then isort ch else ch)) as HF.
+      assert (Hf : Forall (fun c => forall r0, scust (snd (fst (g c r0))) = false) (if srt then isort ch else ch)).
+      { apply Forall_forall. intros c _ r0. unfold g. rewrite with_nth_nth_error.
+        destruct (nth_error cands c) as [sc|] eqn:E; [|reflexivity].
+        destruct (random_dna R sample randint uniform sc r0) as [sub r'] eqn:Er. simpl.
+        eapply nth_error_Forall in IH; eauto. simpl in Hn. rewrite forallb_forall in Hn.
+        specialize (IH (Hn sc (nth_error_In _ _ E)) r0). rewrite Er in IH. auto. }
+      specialize (HF Hf r1). fold g. destruct (map_st g (if srt then isort ch else ch) r1) as [cs r2]. simpl in *.
+      eapply (existsb_false_Forall2 _ _ (fun c : nat * sdna => scust (snd c))); eauto.
+    - intros lo hi nm _ r.
+      change (random_p R sample randint uniform (FloatP lo hi nm) r) with (let (f, r') := uniform lo hi r in (PFloat f, r')).
+      destruct (uniform lo hi r). reflexivity.
+    - intros nm Hn. discriminate.
+  Qed.
+End NoCustom.
+
 Section Total.
   Variable R : Type.
   Variable G : rng R.
@@ -122,12 +160,14 @@ Section Total.
       { intros m. symmetry.
         change (mut_point R G wh (Choices k cands dist srt nm lits) fold (PChoices cs) m r) with
           (let n := length cands in
-           let whole := fun (_ : unit) => let (x1, r1) := rand_p R G (Choices k cands dist srt nm lits) r in @Done R pdna x1 r1 in
+           let whole := fun (_ : unit) => let (x1, r1) := rand_p R G (Choices k cands dist srt nm lits) r in
+                                          if pcust x1 then @Fail R pdna ENotImpl else Done x1 r1 in
            let into := sub_into R (fun s sub m' => mut_space R G wh s false sub m' r) cands cs in
            if k =? 1 then here R (w_choice wh) m whole (fun m' => mmap R PChoices (into O m'))
            else here R (w_choice wh && negb fold) m whole (fun m0 =>
                   mmap R PChoices (subs_walk R (w_choice wh)
-                     (fun j => let (cs', r1) := redraw_sub R G n cands dist srt cs j r in Done cs' r1) into (seq 0 k) m0))).
+                     (fun j => match redraw_sub R G n cands dist srt cs j r with
+                               | (cs', r1, false) => Done cs' r1 | (_, _, true) => Fail ENotImpl end) into (seq 0 k) m0))).
         reflexivity. }
       cbv zeta.
       set (at_ := fun j => match nth_error cs j with
@@ -142,16 +182,33 @@ Section Total.
         { intros m. rewrite with_nth_nth_error, Ec. reflexivity. }
         eapply nth_error_Forall in IH; [|exact Ec]. apply IH; auto.
         simpl in Hnc. rewrite forallb_forall in Hnc. apply Hnc. eapply nth_error_In; eauto. }
-      assert (Hwhole : exists x0 r0, (let (x1, r1) := rand_p R G (Choices k cands dist srt nm lits) r in @Done R pdna x1 r1) = Done x0 r0).
-      { destruct (rand_p R G (Choices k cands dist srt nm lits) r). eauto. }
+      assert (redraw_nocust : forall j, snd (redraw_sub R G (length cands) cands dist srt cs j r) = false).
+      { intros j. unfold redraw_sub.
+        assert (SUB : forall v r0, scust (fst (with_nth (fun s => rand_dna R G s) (fun r' => (SSpace [], r')) cands v r0)) = false).
+        { intros v r0. rewrite with_nth_nth_error. destruct (nth_error cands v) as [sc|] eqn:E; [|reflexivity].
+          apply (proj1 (nocust_both R (sample G) (pick G) (uniform G))). simpl in Hnc. rewrite forallb_forall in Hnc. apply Hnc. eapply nth_error_In; eauto. }
+        destruct dist.
+        - destruct (filter _ (seq 0 (length cands))) as [|a0 av]; [reflexivity|].
+          destruct (pick G _ r) as [i r1].
+          match goal with |- context [with_nth ?f ?d cands ?v r1] => pose proof (SUB v r1) as Hsc; destruct (with_nth f d cands v r1) as [sub r2] end.
+          simpl in *. auto.
+        - destruct (pick G (length cands) r) as [v r1]. pose proof (SUB v r1) as Hsc.
+          destruct (with_nth (fun s => rand_dna R G s) (fun r' => (SSpace [], r')) cands v r1) as [sub r2]. simpl in *. auto. }
+      assert (Hwhole : exists x0 r0, (let (x1, r1) := rand_p R G (Choices k cands dist srt nm lits) r in
+                                      if pcust x1 then @Fail R pdna ENotImpl else Done x1 r1) = Done x0 r0).
+      { pose proof (proj2 (nocust_both R (sample G) (pick G) (uniform G)) _ Hnc r) as Hpc. fold (rand_p R G (Choices k cands dist srt nm lits) r) in Hpc.
+        destruct (rand_p R G (Choices k cands dist srt nm lits) r) as [x1 r1]. simpl in Hpc. rewrite Hpc. eauto. }
       destruct (k =? 1) eqn:Ek.
       + apply Nat.eqb_eq in Ek.
-        apply (counts_here R _ (w_choice wh) (fun _ => let (x1, r1) := rand_p R G (Choices k cands dist srt nm lits) r in @Done R pdna x1 r1)). exact Hwhole.
+        apply (counts_here R _ (w_choice wh) (fun _ => let (x1, r1) := rand_p R G (Choices k cands dist srt nm lits) r in
+                                                       if pcust x1 then @Fail R pdna ENotImpl else Done x1 r1)). exact Hwhole.
         apply (counts_mmap R _ _ PChoices). apply Hinto. lia.
-      + apply (counts_here R _ (w_choice wh && negb fold) (fun _ => let (x1, r1) := rand_p R G (Choices k cands dist srt nm lits) r in @Done R pdna x1 r1)). exact Hwhole.
+      + apply (counts_here R _ (w_choice wh && negb fold) (fun _ => let (x1, r1) := rand_p R G (Choices k cands dist srt nm lits) r in
+                                                                      if pcust x1 then @Fail R pdna ENotImpl else Done x1 r1)). exact Hwhole.
         apply (counts_mmap R _ _ PChoices).
         apply (subs_walk_counts R (w_choice wh) _ _ at_).
-        * intros j. destruct (redraw_sub R G (length cands) cands dist srt cs j r). eauto.
+        * intros j. pose proof (redraw_nocust j) as Hrc.
+          destruct (redraw_sub R G (length cands) cands dist srt cs j r) as [[cs1 r1] b]. simpl in Hrc. subst b. eauto.
         * intros j Hj. apply Hinto. apply in_seq in Hj. lia.
     - intros lo hi nm _ fold x r Hv. destruct x; try discriminate. simpl.
       replace (if w_float wh then 1 else 0) with (b2n (w_float wh) + 0) by (unfold b2n; destruct (w_float wh); auto).
